@@ -1442,6 +1442,212 @@ theorem asm_fresh_aux (oz : Bool) :
     aallOps.filter (fun op => (astep a (astep a (afresh a) (.k0 false)).1 op).2.isOk) = aallOps := by
   cases oz <;> decide
 
+
+/-! ### assemblies with zero laminate offsets and a single connection list: ∀ histories -/
+
+/-- canonical result of a Panel program -/
+def canonProg (d : Def) (p : List Instr) : List Tok := result (crun d p (Work.start, Regs.empty)).1
+
+theorem pstep_aux (d : Def) (p : List Instr) (hg : guarded false p = true) (hr : regOK [] p = true)
+    (ho : d.offsetZero = true ∨ p.all (fun i => !noOffset i) = true) (s : State) (hi : Inv d s.h) :
+    Inv d (pstep d s p).1.h ∧ ((pstep d s p).2.1 = none → (pstep d s p).2.2 = canonProg d p) := by
+  refine ⟨run_inv d p false ⟨s.h, Work.start, s.g⟩ hg (by simp) ho hi, ?_⟩
+  intro hn
+  simp only [pstep] at hn ⊢
+  have hc := run_canon d p false ⟨s.h, Work.start, s.g⟩ hg (by simp) ho hi hn
+  have hx : (run d p ⟨s.h, Work.start, s.g⟩).1.x = (crun d p (Work.start, s.g)).1 := by
+    have := congrArg Prod.fst hc
+    simpa using this
+  rw [hx, canonProg, crun_regs d p [] Work.start s.g Regs.empty hr (by simp)]
+
+theorem panelProg_static (op : AOp) :
+    guarded false (panelProg op) = true ∧ regOK [] (panelProg op) = true ∧
+    (panelProg op).all (fun i => !noOffset i) = true := by
+  cases op <;> first | (exact ⟨rfl, rfl, rfl⟩) | (rename_i b; cases b <;> exact ⟨rfl, rfl, rfl⟩)
+
+def canonConn (a : ADef) : ConnTok := ⟨.own, canonProg a.d1 (prog .ktkr), canonProg a.d2 (prog .ktkr)⟩
+
+def AInv (a : ADef) (s : AState) : Prop :=
+  Inv a.d1 s.p1.h ∧ Inv a.d2 s.p2.h ∧ (s.cache = none ∨ s.cache = some (canonConn a))
+
+theorem both_aux (a : ADef) (p : List Instr) (hg : guarded false p = true) (hr : regOK [] p = true)
+    (ho : (a.d1.offsetZero = true ∧ a.d2.offsetZero = true) ∨ p.all (fun i => !noOffset i) = true)
+    (s : AState) (hi : AInv a s) :
+    AInv a (both a s p).1 ∧
+      ((both a s p).2.1 = none → (both a s p).2.2.1 = canonProg a.d1 p ∧ (both a s p).2.2.2 = canonProg a.d2 p) := by
+  obtain ⟨i1, i2, i3⟩ := hi
+  have ho1 : a.d1.offsetZero = true ∨ p.all (fun i => !noOffset i) = true := by
+    rcases ho with h | h
+    · exact Or.inl h.1
+    · exact Or.inr h
+  have ho2 : a.d2.offsetZero = true ∨ p.all (fun i => !noOffset i) = true := by
+    rcases ho with h | h
+    · exact Or.inl h.2
+    · exact Or.inr h
+  have h1 := pstep_aux a.d1 p hg hr ho1 s.p1 i1
+  have h2 := pstep_aux a.d2 p hg hr ho2 s.p2 i2
+  simp only [both]
+  cases he : (pstep a.d1 s.p1 p).2.1 with
+  | some e => exact ⟨⟨h1.1, i2, i3⟩, by simp⟩
+  | none =>
+    simp only []
+    refine ⟨⟨h1.1, h2.1, i3⟩, ?_⟩
+    intro hn
+    exact ⟨h1.2 he, h2.2 hn⟩
+
+theorem getConn_aux (a : ADef) (hz : a.d1.offsetZero = true ∧ a.d2.offsetZero = true) (s : AState)
+    (hi : AInv a s) : AInv a (getConn a s false).1 ∧ ∀ t, (getConn a s false).2 = .ok t → t = canonConn a := by
+  simp only [getConn]
+  split
+  · exact ⟨hi, by simp⟩
+  · cases hc : s.cache with
+    | some t =>
+      simp only []
+      refine ⟨hi, ?_⟩
+      intro t' ht
+      simp at ht
+      rcases hi.2.2 with h | h
+      · rw [hc] at h; simp at h
+      · rw [hc] at h; simp at h; rw [← ht, h]
+    | none =>
+      simp only []
+      have hb := both_aux a (prog .ktkr) (prog_guarded .ktkr) (prog_regOK .ktkr) (Or.inl hz) s hi
+      cases he : (both a s (prog .ktkr)).2.1 with
+      | some e => exact ⟨hb.1, by simp⟩
+      | none =>
+        simp only []
+        obtain ⟨r1, r2⟩ := hb.2 he
+        refine ⟨⟨hb.1.1, hb.1.2.1, Or.inr ?_⟩, ?_⟩
+        · simp [canonConn, r1, r2]
+        · intro t ht
+          simp at ht
+          simp [← ht, canonConn, r1, r2]
+
+/-- calls that do not pass a foreign connection list -/
+def ownConn : AOp → Bool
+  | .k0 true | .conn true => false
+  | _ => true
+
+/-- canonical result of an assembly call -/
+def canonA (a : ADef) : AOp → AOutcome
+  | .size => .ok [] [] none
+  | .conn _ => .ok [] [] (some (canonConn a))
+  | .k0 o => .ok (canonProg a.d1 (panelProg (.k0 o))) (canonProg a.d2 (panelProg (.k0 o))) (some (canonConn a))
+  | .kT => .ok (canonProg a.d1 (panelProg .kT)) (canonProg a.d2 (panelProg .kT)) (some (canonConn a))
+  | .fint => .ok (canonProg a.d1 (panelProg .fint)) (canonProg a.d2 (panelProg .fint)) (some (canonConn a))
+  | op => .ok (canonProg a.d1 (panelProg op)) (canonProg a.d2 (panelProg op)) none
+
+theorem astep_aux (a : ADef) (hz : a.d1.offsetZero = true ∧ a.d2.offsetZero = true) (s : AState) (hi : AInv a s)
+    (op : AOp) (ho : ownConn op = true) :
+    AInv a (astep a s op).1 ∧ ((astep a s op).2.isOk = true → (astep a s op).2 = canonA a op) := by
+  have hst := panelProg_static op
+  have hb := both_aux a (panelProg op) hst.1 hst.2.1 (Or.inr hst.2.2) s hi
+  cases op with
+  | size => exact ⟨hi, fun _ => rfl⟩
+  | conn o =>
+    cases o with
+    | true => simp [ownConn] at ho
+    | false =>
+      have hc := getConn_aux a hz s hi
+      simp only [astep]
+      refine ⟨hc.1, ?_⟩
+      cases hg : (getConn a s false).2 with
+      | error e => simp [AOutcome.isOk]
+      | ok t => intro _; simp [canonA, hc.2 t hg]
+  | k0 o =>
+    cases o with
+    | true => simp [ownConn] at ho
+    | false =>
+      simp only [astep]
+      cases he : (both a s (panelProg (.k0 false))).2.1 with
+      | some e => exact ⟨hb.1, by simp [AOutcome.isOk]⟩
+      | none =>
+        simp only []
+        have hc := getConn_aux a hz _ hb.1
+        refine ⟨hc.1, ?_⟩
+        cases hg : (getConn a (both a s (panelProg (.k0 false))).1 false).2 with
+        | error e => simp [AOutcome.isOk]
+        | ok t => intro _; simp [canonA, hc.2 t hg, (hb.2 he).1, (hb.2 he).2]
+  | kT =>
+    simp only [astep]
+    cases he : (both a s (panelProg .kT)).2.1 with
+    | some e => exact ⟨hb.1, by simp [AOutcome.isOk]⟩
+    | none =>
+      simp only []
+      have hc := getConn_aux a hz _ hb.1
+      refine ⟨hc.1, ?_⟩
+      cases hg : (getConn a (both a s (panelProg .kT)).1 false).2 with
+      | error e => simp [AOutcome.isOk]
+      | ok t => intro _; simp [canonA, hc.2 t hg, (hb.2 he).1, (hb.2 he).2]
+  | fint =>
+    simp only [astep]
+    cases he : (both a s (panelProg .fint)).2.1 with
+    | some e => exact ⟨hb.1, by simp [AOutcome.isOk]⟩
+    | none =>
+      simp only []
+      have hc := getConn_aux a hz _ hb.1
+      refine ⟨hc.1, ?_⟩
+      cases hg : (getConn a (both a s (panelProg .fint)).1 false).2 with
+      | error e => simp [AOutcome.isOk]
+      | ok t => intro _; simp [canonA, hc.2 t hg, (hb.2 he).1, (hb.2 he).2]
+  | kG0 =>
+    simp only [astep]
+    cases he : (both a s (panelProg .kG0)).2.1 with
+    | some e => exact ⟨hb.1, by simp [AOutcome.isOk]⟩
+    | none => exact ⟨hb.1, fun _ => by simp [canonA, (hb.2 he).1, (hb.2 he).2]⟩
+  | kG =>
+    simp only [astep]
+    cases he : (both a s (panelProg .kG)).2.1 with
+    | some e => exact ⟨hb.1, by simp [AOutcome.isOk]⟩
+    | none => exact ⟨hb.1, fun _ => by simp [canonA, (hb.2 he).1, (hb.2 he).2]⟩
+  | kM =>
+    simp only [astep]
+    cases he : (both a s (panelProg .kM)).2.1 with
+    | some e => exact ⟨hb.1, by simp [AOutcome.isOk]⟩
+    | none => exact ⟨hb.1, fun _ => by simp [canonA, (hb.2 he).1, (hb.2 he).2]⟩
+  | fext =>
+    simp only [astep]
+    cases he : (both a s (panelProg .fext)).2.1 with
+    | some e => exact ⟨hb.1, by simp [AOutcome.isOk]⟩
+    | none => exact ⟨hb.1, fun _ => by simp [canonA, (hb.2 he).1, (hb.2 he).2]⟩
+  | uvw =>
+    simp only [astep]
+    cases he : (both a s (panelProg .uvw)).2.1 with
+    | some e => exact ⟨hb.1, by simp [AOutcome.isOk]⟩
+    | none => exact ⟨hb.1, fun _ => by simp [canonA, (hb.2 he).1, (hb.2 he).2]⟩
+  | strain =>
+    simp only [astep]
+    cases he : (both a s (panelProg .strain)).2.1 with
+    | some e => exact ⟨hb.1, by simp [AOutcome.isOk]⟩
+    | none => exact ⟨hb.1, fun _ => by simp [canonA, (hb.2 he).1, (hb.2 he).2]⟩
+  | stress =>
+    simp only [astep]
+    cases he : (both a s (panelProg .stress)).2.1 with
+    | some e => exact ⟨hb.1, by simp [AOutcome.isOk]⟩
+    | none => exact ⟨hb.1, fun _ => by simp [canonA, (hb.2 he).1, (hb.2 he).2]⟩
+
+theorem arunOps_inv (a : ADef) (hz : a.d1.offsetZero = true ∧ a.d2.offsetZero = true) :
+    ∀ (ops : List AOp) (s : AState), (∀ op ∈ ops, ownConn op = true) → AInv a s → AInv a (arunOps a s ops) := by
+  intro ops
+  induction ops with
+  | nil => intro s _ hi; exact hi
+  | cons op ops ih =>
+    intro s ho hi
+    simp only [arunOps]
+    exact ih _ (fun o h => ho o (List.mem_cons_of_mem _ h))
+      (astep_aux a hz s hi op (ho op (List.mem_cons_self ..))).1
+
+theorem ainv_fresh (a : ADef) : AInv a (afresh a) := ⟨inv_init a.d1, inv_init a.d2, Or.inl rfl⟩
+
+theorem asm_history_independent_aux (a : ADef) (hz : a.d1.offsetZero = true ∧ a.d2.offsetZero = true)
+    (h1 h2 : List AOp) (op : AOp) (o1 : ∀ o ∈ h1, ownConn o = true) (o2 : ∀ o ∈ h2, ownConn o = true)
+    (oo : ownConn op = true) (k1 : (astep a (arunOps a (afresh a) h1) op).2.isOk = true)
+    (k2 : (astep a (arunOps a (afresh a) h2) op).2.isOk = true) :
+    (astep a (arunOps a (afresh a) h1) op).2 = (astep a (arunOps a (afresh a) h2) op).2 := by
+  have i1 := arunOps_inv a hz h1 _ o1 (ainv_fresh a)
+  have i2 := arunOps_inv a hz h2 _ o2 (ainv_fresh a)
+  rw [(astep_aux a hz _ i1 op oo).2 k1, (astep_aux a hz _ i2 op oo).2 k2]
+
 end Compmech.Lifecycle.Asm
 
 /-! ## StiffPanelBay -/
